@@ -240,12 +240,14 @@ def m_subtle_from(ctx, args):
 @model("ff::Field::random", "group::Group::random")
 def m_random(ctx, args):
     kind = "scalar" if ctx.oq.startswith("ff") else "element"
-    return ("rand", kind, ctx.fresh_ctx())
+    cp, binders = ctx.fresh_ctx()
+    return ("rand", kind, cp, binders)
 
 
 @model("rand::RngCore::fill_bytes")
 def m_fill_bytes(ctx, args):
-    ctx.eng.write_ref(ctx.st, args[1], ("rand", "bytes", ctx.fresh_ctx()))
+    cp, binders = ctx.fresh_ctx()
+    ctx.eng.write_ref(ctx.st, args[1], ("rand", "bytes", cp, binders))
     return UNIT
 
 
